@@ -348,7 +348,7 @@ def rule_R15(text, fired):
 
 
 # ---- R19: enumerate loops ------------------------------------------------------------------------
-R19_RX = re.compile(r'\bfor\s*\(\s*(\w+)\s*,\s*(\w+|\([^()]*\))\s*\)\s*in\s+([\w\.]+?)\.iter\(\)\.enumerate\(\)\s*\{')
+R19_RX = re.compile(r'\bfor\s*\(\s*(\w+)\s*,\s*(\w+|\([^()]*\))\s*\)\s*in\s+([\w\.]+?(?:\(\))?)\.iter\(\)\.enumerate\(\)\s*\{')
 
 # `for PAT in &E {` : same rewrite with the index named i_PAT
 R19C_RX = re.compile(r'\bfor\s+(\([^()]*\))\s+in\s+([\w\.]+?)\.iter\(\)\s*\{')
